@@ -151,7 +151,9 @@ func c11ListText(ops []c11Op) string {
 
 func (w *c11World) run(c *c11Ctx, ops []c11Op, cfgs []c11Cfg) {
 	items := w.items(ops)
-	for _, cfg := range cfgs {
+	base := c.idx
+	for ci, cfg := range cfgs {
+		c.idx = base + int64(ci)
 		c11Check(c, cfg, items, func() any {
 			return c11ListCase{Part: "lists", Cfg: cfg, Ops: append([]c11Op{}, ops...), Text: c11ListText(ops)}
 		}, nil)
@@ -217,9 +219,11 @@ func TestVerif_C11_Lists(t *testing.T) {
 			t.Fatal(err)
 		}
 		// the verdict is structural, a single execution decides; run a few more to show the emitted order varying
+		c := c11NewCtx(r)
 		for i := 0; i < 4; i++ {
-			w.run(c11NewCtx(r), cs.Ops, []c11Cfg{cs.Cfg})
+			w.run(c, cs.Ops, []c11Cfg{cs.Cfg})
 		}
+		c11Flush(r, []*c11Ctx{c})
 		return
 	}
 	maxLen := 4
@@ -239,20 +243,24 @@ func TestVerif_C11_Lists(t *testing.T) {
 		total := 0
 		c11Lists(n, func([]c11Op) { total++ })
 		lists[fmt.Sprint(n)] = total
+		ctxs := make([]*c11Ctx, W)
 		r.Parallel(W, func(wk int, rep *vr.Report) {
 			c := c11NewCtx(rep)
+			ctxs[wk] = c
 			i := 0
 			c11Lists(n, func(ops []c11Op) {
 				i++
 				if i%W != wk {
 					return
 				}
+				c.idx = int64(i) * 4
 				w.run(c, ops, c11Cfgs)
 				if c.WantSample() && i%(total/5+1) == wk {
 					c.Sample(c11ListCase{Part: "lists", Cfg: c11Cfgs[i%4], Ops: append([]c11Op{}, ops...), Text: c11ListText(ops)})
 				}
 			})
 		})
+		c11Flush(r, ctxs) // lengths in increasing order: the shortest failing list is the one kept
 	}
 	r.Bounds["lists_per_length"] = lists
 }
